@@ -56,6 +56,7 @@ import (
 	"strings"
 	"sync"
 	"testing"
+	"time"
 
 	"github.com/titpetric/vuego"
 	"golang.org/x/net/html"
@@ -100,6 +101,11 @@ type Step struct {
 	// with the same names bound to recognisably stale values). The failing call itself is not
 	// judged; the render that follows must meet the usual expectation.
 	Fail string `json:"fail,omitempty"`
+	// Other: OTHER engines in the process as hidden state. Before every render of this step an
+	// unrelated engine with another option set is created and used once: "default" (default
+	// functions only), "builtins" (registered functions named like expression built-ins),
+	// "components", "less", "markdown" (markdown.New), "all" (each of them).
+	Other string `json:"other,omitempty"`
 }
 
 // Case is a history. Mode "history" (default), "probe" (Steps[0] rendered K times on one
@@ -150,13 +156,32 @@ type engine struct {
 // in-place attribute-editing node processor) and "onelayer" (the filesystem presented through a
 // vuego.OverlayFS) are added here.
 func rootOf(opts cat.Program, fsys fs.FS) vuego.Template {
-	less, proc := false, false
+	less, proc, builtinNamed := false, false, false
 	for _, o := range opts.Opts {
 		switch o {
 		case "less":
 			less = true
 		case "proc":
 			proc = true
+		case "twolayer":
+			// site over theme over defaults: NESTED overlays in which every template file exists
+			// in all three layers; the upper one is the program's (editable) filesystem, the two
+			// below hold fixed other versions with the initial mtime
+			if m, ok := fsys.(*memfs.FS); ok {
+				// (their mtimes are far from anything the upper layer ever carries: a file that
+				// shows through while the upper copy is unreadable is never an equal-mtime edit)
+				mid, low := memfs.New(), memfs.New()
+				for f := range opts.Files {
+					if strings.HasSuffix(f, ".vuego") {
+						mid.Write(f, `<s data-layer="mid">MID-LAYER {{ who }}</s>`, time.Unix(400, 0))
+						low.Write(f, `<s data-layer="low">LOW-LAYER {{ who }}</s>`, time.Unix(200, 0))
+					}
+				}
+				low.Write("only-in-lowest.txt", "x", time.Unix(200, 0))
+				fsys = vuego.NewOverlayFS(m, vuego.NewOverlayFS(mid, low))
+			}
+		case "builtin-funcs":
+			builtinNamed = true
 		case "onelayer":
 			// the files behind a vuego.OverlayFS of two layers in which every directory of the
 			// program exists in ONE layer only (the other layer holds a single unrelated file)
@@ -165,7 +190,7 @@ func rootOf(opts cat.Program, fsys fs.FS) vuego.Template {
 			}
 		}
 	}
-	if !less && !proc {
+	if !less && !proc && !builtinNamed {
 		return opts.Engine(fsys)
 	}
 	mounted := fsys
@@ -177,6 +202,9 @@ func rootOf(opts cat.Program, fsys fs.FS) vuego.Template {
 		if o == "components" {
 			lo = append(lo, vuego.WithComponents())
 		}
+	}
+	if builtinNamed {
+		lo = append(lo, vuego.WithFuncs(builtinNamedFuncs()))
 	}
 	if less {
 		lo = append(lo, vuego.WithLessProcessor())
@@ -910,6 +938,12 @@ func check(c Case) error {
 			if i > 0 {
 				where += fmt.Sprintf(", after %s/%s", c.Steps[i-1].Prog, c.Steps[i-1].Entry)
 			}
+			if st.Other != "" {
+				if err := bystander(st.Other); err != nil {
+					return fmt.Errorf("%s: %w", where, err)
+				}
+				where += " [after another engine was created and used: " + st.Other + "]"
+			}
 			if st.Fail != "" {
 				if err := failingCall(w.seats[st.Prog], pl.p, st); err != nil {
 					return fmt.Errorf("%s: %w", where, err)
@@ -1064,6 +1098,9 @@ func classify(c Case) (bool, []string) {
 			set["k>=20"] = true
 		}
 		editClasses(c, i, set)
+		if st.Other != "" {
+			set["other-engine:"+st.Other] = true
+		}
 		if st.Fail != "" {
 			set["after-failure:"+st.Fail] = true
 			if isKeep(st.Entry) {
@@ -1188,6 +1225,9 @@ func genStep(t *rapid.T, p cat.Program) Step {
 		st.Var = rapid.SampledFrom([]int{0, 0, 0, 1, 2, 1, 2, vEmpty, vNil, vJSON, vStringly, vSwapped, vJSON, vStringly}).Draw(t, "var")
 	} else if rapid.IntRange(0, 3).Draw(t, "nil-data") == 0 {
 		st.Var = vNil
+	}
+	if rapid.IntRange(0, 4).Draw(t, "other-engine") == 0 {
+		st.Other = rapid.SampledFrom(otherKinds).Draw(t, "other")
 	}
 	if rapid.IntRange(0, 3).Draw(t, "after-failure") == 0 {
 		var kinds []string
@@ -1444,6 +1484,16 @@ func TestProp(t *testing.T) {
 			}
 		} else {
 			each("kept", Case{Steps: []Step{st(eKeepLoad, 0, 2), st("load", 0, 1), st(eKeepLoad, 0, 1)}})
+		}
+	}
+	// other engines in the process: every program x one entry (rotating), a render, then one after
+	// each kind of unrelated engine was created and used, then all of them
+	for pi, p := range named {
+		es := entriesOf(p)
+		for k := 0; k < 2; k++ {
+			e := es[(pi+k*3)%len(es)]
+			st := func(other string) Step { return Step{Prog: p.Name, Entry: e, Other: other} }
+			each("other-engines", Case{Steps: []Step{st(""), st("default"), st("builtins"), st("markdown"), st("components"), st("less"), st("all"), st("")}})
 		}
 	}
 	// after-failure: before the render, a failing call through the same entry on the same engine /
